@@ -302,6 +302,14 @@ def install(w):
         f = ex.w.ufun("is_literal", ex.S.Py, z3.BoolSort())
         return Z(f(ex.to_py(args[0])))
 
+    @b("hash_of_dump")
+    def _hash_of_dump(ex, args, kw, e, env):
+        """md5_hex(utf8(ast.dump(a))) — the fixed function of the field structure C20 asks for."""
+        d = ex.w.ufun("ast_dump", ex.S.Py, z3.StringSort())
+        u = ex.w.ufun("utf8", z3.StringSort(), z3.StringSort())
+        h = ex.w.ufun("md5_hex", z3.StringSort(), z3.StringSort())
+        return Z(h(u(d(ex.to_py(args[0])))))
+
     @b("uf")
     def _uf(ex, args, kw, e, env):
         """uf("name", x, ...) — uninterpreted Py-valued function (trusted library symbol)."""
@@ -447,6 +455,19 @@ def install(w):
                             "iterated in the model")
         return CList(items)
     L["ast.iter_fields"] = ast_iter_fields
+
+    def hashlib_md5(ex, args, kw, e, env):
+        data = args[0] if args else Z(z3.StringVal(""))
+        return Obj("md5", {"data": data}, fresh="shallow")
+    L["hashlib.md5"] = hashlib_md5
+
+    def md5_hexdigest(ex, o, a, k, l):
+        f = ex.w.ufun("md5_hex", z3.StringSort(), z3.StringSort())
+        d = o.attrs["data"]
+        if not (isinstance(d, Z) and d.t.sort() == z3.StringSort()):
+            raise Unsupported("md5 of a non-bytes value")
+        return Z(f(d.t))
+    w.obj_methods[("md5", "hexdigest")] = md5_hexdigest
 
     def logging_getLogger(ex, args, kw, e, env):
         return Obj("logger", {})
@@ -626,6 +647,12 @@ def value_methods(ex, obj, name, args, kw, line):
             return Z(f(obj.t, ex.to_py(Tup(args))))
         if name == "startswith":
             return Z(z3.PrefixOf(ex.to_str(args[0], line), obj.t))
+        if name == "encode":
+            enc = const_str(args[0]) if args else "utf-8"
+            if enc not in ("utf-8", "utf8"):
+                raise Unsupported(f"str.encode({enc!r})")
+            f = ex.w.ufun("utf8", z3.StringSort(), z3.StringSort())   # total and injective
+            return Z(f(obj.t))
     if isinstance(obj, Z) and obj.t.sort() == S.Py:
         # str methods on a Py known to be a str
         if name in ("lower", "strip"):
